@@ -405,10 +405,14 @@ StepCb(s, e) ==
 -----------------------------------------------------------------------------
 (* --- close: BaseFlumine._process_close_market (simulation) ---------------- *)
 StepClose(s, e, n) ==
-    LET mid == e.a.mid IN
+    LET mid == e.a.mid
+        \* orders filled by the packages executed on this (closing) update are completed first:
+        \* no later update of the market would do it
+        s0 == StepSweep(s, e)
+    IN
     \* a market not seen open is added first (as the live framework does), then closed
-    [s EXCEPT !.mkt = Put(s.mkt, mid, n.mkt[mid]),
-                   !.rc = [k \in {x \in DOMAIN s.rc : s.rc[x].mid # mid} |-> s.rc[k]]]
+    [s0 EXCEPT !.mkt = Put(s0.mkt, mid, n.mkt[mid]),
+                    !.rc = [k \in {x \in DOMAIN s0.rc : s0.rc[x].mid # mid} |-> s0.rc[k]]]
 
 -----------------------------------------------------------------------------
 Step(s, e, n) ==
